@@ -310,7 +310,7 @@ var props = map[string]*propDef{
 			"the harness connection is goroutine-safe like a net.Conn (separate read/write locks, atomics for what the server has seen)",
 		}, baseAssumptions...),
 		Harnesses: []harnessDef{
-			{Name: "ch.VerifC12Query", Race: true, Repeat: 50, Cfg: noReturn, Witness: 4},
+			{Name: "ch.VerifC12Query", Race: true, Repeat: 50, Cfg: noReturn, Witness: 12},
 			{Name: "chpool.VerifC12Pool", Race: true, Repeat: 50, Cfg: func(c *sym.Config) { noReturn(c); c.AllowLeak = true }, Witness: 3},
 		},
 	},
